@@ -597,11 +597,60 @@ func apiType(c px.Context, e sx.Sexp) px.Type {
 const objTypes = `type My::Pt = Object[{attributes => {x => Integer, y => {type => String, value => 'd'}}}]`
 const objTypes2 = `type My::Box = Object[{attributes => {items => Array[Any], label => {type => Optional[String], value => undef}, inner => {type => Optional[My::Pt], value => undef}}}]`
 
+// My::Lim: attributes whose type accepts undef and whose default is NOT undef (max, unit, ratio, flag), one whose default
+// is undef (note), a non-optional one with a default (tags) and a given_or_derived one (gd): an instance must print every
+// value that differs from the default — an explicit undef included — and may leave out only what equals the default
+const objTypes3 = `type My::Lim = Object[{attributes => {
+  name => String,
+  max  => {type => Optional[Integer], value => 100},
+  unit => {type => Optional[String],  value => 'MB'},
+  note => {type => Optional[String],  value => undef},
+  tags => {type => Array[String], value => []},
+  ratio => {type => Variant[Undef, Float, Integer], value => 1},
+  flag => {type => Optional[Boolean], value => true},
+  gd => {type => Optional[String], kind => given_or_derived}}}]`
+
+// limChoices: per attribute of My::Lim (after name) the values {explicit undef, equal to the default, different}
+var limChoices = [][]string{
+	{"u", "(i 100)", "(i 5)"},
+	{"u", "(s " + hx("MB") + ")", "(s " + hx("kB") + ")"},
+	{"u", "(s " + hx("n") + ")"},
+	{"(a)", "(a (s " + hx("t") + "))"},
+	{"u", "(i 1)", "(f 4609434218613702656 " + hx("1.50000") + ")", "(i 0)"},
+	{"u", "(b t)", "(b f)"},
+	{"u", "(s " + hx("g") + ")"},
+}
+
+// limInstances: every combination of limChoices as an (obj My::Lim …) value
+func limInstances() []string {
+	out := []string{}
+	var rec func(i int, cur string)
+	rec = func(i int, cur string) {
+		if i == len(limChoices) {
+			out = append(out, "(obj "+hx("My::Lim")+" (s "+hx("c")+")"+cur+")")
+			return
+		}
+		for _, ch := range limChoices[i] {
+			rec(i+1, cur+" "+ch)
+		}
+	}
+	rec(0, "")
+	return out
+}
+
+func genLim(r *rand.Rand) string {
+	cur := ""
+	for _, chs := range limChoices {
+		cur += " " + chs[r.Intn(len(chs))]
+	}
+	return "(obj " + hx("My::Lim") + " (s " + hx(syn.GenString(r)) + ")" + cur + ")"
+}
+
 func defineTypes(c px.Context) {
 	if _, ok := c.ParseType("My::Pt").(*types.TypeReferenceType); !ok {
 		return
 	}
-	px.AddTypes(c, types.Parse(objTypes).(px.Type), types.Parse(objTypes2).(px.Type))
+	px.AddTypes(c, types.Parse(objTypes).(px.Type), types.Parse(objTypes2).(px.Type), types.Parse(objTypes3).(px.Type))
 }
 
 func valOf(c px.Context, e sx.Sexp) px.Value {
@@ -763,6 +812,9 @@ func genVal(r *rand.Rand, depth int, key bool) string {
 			xs = append(xs, "("+k+" "+genVal(r, depth-1, key)+")")
 		}
 		return "(h" + pre(xs) + ")"
+	}
+	if r.Intn(3) == 0 {
+		return genLim(r)
 	}
 	if r.Intn(2) == 0 {
 		y := "(s " + hx(syn.GenString(r)) + ")"
@@ -1047,6 +1099,14 @@ func gen(g *core.G) {
 	for i := 0; i < 20000*g.Scale; i++ {
 		t := syn.GenFragType(g.Rng, 1+g.Rng.Intn(3))
 		g.Emit(typeOp(c, t))
+	}
+	// object instances over a type whose attributes have defaults: every combination of {explicit undef, the default,
+	// another value} per attribute — alone, and inside an array and a hash
+	for i, v := range limInstances() {
+		g.Emit("@rt-val " + v + " ()")
+		if i%7 == 0 {
+			g.Emit("@rt-val (a " + v + " (h ((s " + hx("k") + ") " + v + "))) ()")
+		}
 	}
 	// random literal values; inferred types of values
 	for i := 0; i < 15000*g.Scale; i++ {
